@@ -823,3 +823,26 @@ def conj_terms(body, t):
     if not saw_false:
         return None
     return terms
+
+
+def variant_edges(body, value_tree, variant):
+    """CFG edges (block, target) taken exactly when `value_tree` (an Option/Result/enum value) is the given variant"""
+    out = []
+    want = nosite(value_tree)
+    for g in edge_guards(body):
+        if g.t[0] != 'discr' or nosite(g.t[1]) != want:
+            continue
+        r = guard_variants(body, g)
+        if r is not None and r[1] == {variant}:
+            out.append((g.block, g.target))
+    return out
+
+
+def agg_sites(body, name_suffix):
+    """[(stmt, tree)] of aggregate statements constructing an ADT variant whose path ends with name_suffix"""
+    out = []
+    z = symbolizer(body)
+    for s in body.stmts():
+        if s.kind == 'assign' and s.rv.kind == 'agg' and s.rv.agg == 'adt' and (s.rv.raw['adt'] + '::' + s.rv.raw['vname']).endswith(name_suffix):
+            out.append((s, simplify(z.rvalue(s.rv, 0, ()))))
+    return out
